@@ -107,6 +107,22 @@ CHECKS = {
          "only calls reachable from the workload are seen; unknown pointer "
          "provenance is counted and must stay below 1%",
          "argument/buffer-size monitor on every syscall + memcheck", "4 C10"),
+ "C04": ("exploration",
+         "Seeded random programs (main program + SubProgram instances, "
+         "stack / array-map / hash-map variables, Dict key and value "
+         "members) initialise every variable, write some from expressions "
+         "that force generator temporaries, and read everything back; the "
+         "kernel result must differ from the initial values only in the "
+         "written variables. In the reference machine a shadow ownership map "
+         "of the declared stack ranges turns every store into a live foreign "
+         "variable into an event with pc and address (caught even when the "
+         "clobbering value equals the old one); declared ranges must be "
+         "pairwise disjoint.",
+         "trusts the kernel; programs whose store events hit only "
+         "sub-program locals are attributed to the known finding "
+         "subprogram-locals-overlap and not searched further",
+         "store-event monitor (shadow ownership map) in the reference VM + "
+         "differential final-state oracle", "4 C04"),
 }
 
 NOT_YET = "check not built yet in this round (design in DESIGN.md section 4)"
